@@ -38,7 +38,7 @@ class Absorption(ModelFeature):
 
     def __eq__(self, other):
         if isinstance(other, Absorption):
-            return set(self.modes) == set(other.modes)
+            return set(self.eval.modes) == set(other.eval.modes)
         else:
             return False
 
